@@ -97,6 +97,11 @@ func CalculateSaleReturn(supply *big.Int, reserve *big.Int, crr uint32, sellAmou
 
 	result, _ := res.Int(nil)
 
+	// the reserve rounded to the working precision can exceed the reserve
+	if result.Cmp(reserve) == 1 {
+		result.Set(reserve)
+	}
+
 	return result
 }
 
